@@ -36,13 +36,18 @@ import (
 // generators
 
 var (
-	domains   = []string{"example.net", "example.org", "a.example", "conference.example.org", "xmpp.example.com"}
-	locals    = []string{"me", "juliet", "romeo.m", "user+tag", "ünïcode", "a_b", "x"}
+	domains = []string{"example.net", "example.org", "a.example", "conference.example.org", "xmpp.example.com"}
+	// Values are drawn from characters that are special to ANY layer between
+	// the value and the wire: XML (& < > ' "), printf (%s %d %% and a trailing
+	// %), backslashes and braces, the controls XML allows (tab, newline, CR:
+	// attribute-value normalisation), multi-byte and astral runes.
+	locals    = []string{"me", "juliet", "romeo.m", "user+tag", "ünïcode", "a_b", "x", "juliet%capulet.example", "50%off", "a%sb", "x%dy", "p%%q", "100%", `back\slash`, "{brace}", "名前", "𠀀x"}
 	plainRes  = []string{"res", "balcony", "ü res", "x/y", "a>b", "r.1-2_3"}
-	hardRes   = []string{"a'b", `x"y`, "r&d", "<tag>", "a'b<c&d", "&amp;", "&#39;", `q'"&<>`, "it's", "AT&T", "a<b"}
+	hardRes   = []string{"a'b", `x"y`, "r&d", "<tag>", "a'b<c&d", "&amp;", "&#39;", `q'"&<>`, "it's", "AT&T", "a<b", "battery 100%", "%s", "%d%d", "100%%", "%!s(MISSING)", "%", `c:\dir\`, "{a}${b}", "🎉", "𝒳 astral", "%v'"}
 	langs     = []string{"", "", "en", "de-CH", "zh-Hant-TW", "x-klingon", "i-navajo"}
-	hardLangs = []string{"en'US", "a&b", "<x>", `"q"`}
+	hardLangs = []string{"en'US", "a&b", "<x>", `"q"`, "%s", "en%", "x-%d", `a\b`, "日本"}
 	safeIDs   = []string{"abc123", "a1B2-c3_D4.e5", "++/==", "0", "4f9c2a7b1d3e5f60718293a4b5c6d7e8", "id:with:colons", "s2s_9"}
+	hardIDs   = []string{"id%s", "100%", "%", "%d-%v", "p%%q", "tab\tid", "line\nbreak", "cr\rid", `q'"&<>`, `back\slash`, "{x}", "𝒳id", "ü-id", " lead and trail "}
 )
 
 func pick(r *rand.Rand, xs []string) string { return xs[r.Intn(len(xs))] }
@@ -103,7 +108,7 @@ type emitWant struct {
 	Lang     string
 }
 
-func hasSpecial(s string) bool { return strings.ContainsAny(s, `'"&<`) }
+func hasSpecial(s string) bool { return strings.ContainsAny(s, "'\"&<%\\\t\n\r{") }
 
 // judgeEmitted parses the header at the start of out and compares it with w.
 // It returns the parsed header (nil when unparsable).
@@ -122,7 +127,23 @@ func judgeEmitted(c *core.Case, where string, out []byte, w emitWant, exact bool
 		}
 		return ""
 	}
+	// a value that went through a printf-style format string leaves "%!" debris
+	// behind (or loses what followed the '%')
+	formatted := func() bool {
+		any := false
+		for _, v := range inputs {
+			if strings.Contains(v, "%!") || strings.Contains(v, "(MISSING)") {
+				return false // the debris is part of a value: no conclusion
+			}
+			any = any || strings.Contains(v, "%")
+		}
+		return any && (bytes.Contains(out, []byte("%!")) || bytes.Contains(out, []byte("(MISSING)")) || bytes.Contains(out, []byte("(NOVERB)")))
+	}
 	h, err := parseHeader(out)
+	if err != nil && formatted() {
+		c.Violate("hdr:emit:format-verb", "%s: emitted header is not well-formed XML (%v): a '%%' in a value was interpreted as a format verb: %q", where, err, trunc(out, 400))
+		return nil
+	}
 	if err != nil {
 		if u := unescaped(); u != "" {
 			c.Violate("hdr:emit:unescaped:"+u, "%s: emitted header is not well-formed XML (%v): an attribute value was written without escaping: %q", where, err, trunc(out, 400))
@@ -151,7 +172,9 @@ func judgeEmitted(c *core.Case, where string, out []byte, w emitWant, exact bool
 	}
 	bad := func(attr, got, want string) {
 		key := "hdr:emit:value:" + attr
-		if u := unescaped(); u != "" {
+		if formatted() {
+			key = "hdr:emit:format-verb"
+		} else if u := unescaped(); u != "" {
 			key = "hdr:emit:unescaped:" + u
 		}
 		c.Violate(key, "%s: a peer parsing the emitted header recovers %s=%q, the library was given %q; header %q", where, attr, got, want, trunc(out[:h.Tag.End], 400))
@@ -213,10 +236,17 @@ func emitDirect(c *core.Case) {
 		from = fj.String()
 	}
 	id := ""
-	if r.Intn(3) != 0 {
+	switch r.Intn(4) {
+	case 0, 1:
 		id = pick(r, safeIDs)
+	case 2:
+		id = pick(r, hardIDs)
+		c.Count("emit_direct_special_id", 1)
 	}
 	lang := genLang(r)
+	if strings.Contains(to+from+id+lang, "%") {
+		c.Count("emitted_values_with_percent", 1)
+	}
 	c.Sample(map[string]any{"part": "emit-direct", "ws": ws, "xmlns": ns, "to": to, "from": from, "id": id, "lang": lang})
 	info := stream.Info{XMLNS: ns}
 	var buf rwBuf
@@ -528,7 +558,11 @@ func genHeader(r *rand.Rand, ws, s2s bool, to, from string, wantID bool) *hdrSpe
 	}
 	attrs = append(attrs, kv{"version", "1.0"})
 	if wantID || r.Intn(2) == 0 {
-		attrs = append(attrs, kv{"id", pick(r, safeIDs)})
+		if r.Intn(4) == 0 {
+			attrs = append(attrs, kv{"id", pick(r, hardIDs)})
+		} else {
+			attrs = append(attrs, kv{"id", pick(r, safeIDs)})
+		}
 	}
 	if to != "" {
 		attrs = append(attrs, kv{"to", to})
@@ -1874,7 +1908,7 @@ func Prop() *core.Prop {
 		Rule:  "cases rotate over nine parts: headers emitted by internal/stream.Send and by sessions of both roles (TCP and WebSocket framing, c2s and s2s, addresses with XML-special resourceparts, language tags, ids) parsed by an independent strict start-tag scanner and compared with the inputs; two library sessions connected to each other; generated incoming headers (0-2 mutations of a canonical header: element name/namespace/prefix, content namespace, version strings, id, addresses, attribute spelling) given to internal/stream.Expect and to sessions of both roles and judged by a reference predicate in the 'accepted implies valid' direction; three-stream negotiations through instrumented restarting features with unchanged/changed/absent addresses; stream errors in place of a header; resource binding on both roles against every reply/request/callback class. distinct = (part, role, framing, input class, outcome).",
 		Assumptions: []string{
 			"the strict start-tag scanner in props/c12/strict.go implements XML 1.0 well-formedness of a prolog and one start tag (no '<' in attribute values, well-formed references, unique attributes, bound prefixes)",
-			"a valid stream id is drawn from letters, digits and -_.+/=: (the library only ever emits ids it generated itself); addresses are any address jid.Parse accepts",
+			"stream ids, language tags, localparts and resourceparts are drawn from characters that are special to any layer between the value and the wire (XML specials, printf verbs, backslashes, braces, tab/newline/CR, multi-byte and astral runes); addresses are any address jid.Parse accepts",
 			"version strings are compared numerically (leading zeros ignored, RFC 6120 4.7.5), so '01.0' counts as version 1.0",
 			"only headers that follow at least one restart are judged for changed addresses; an absent attribute is not a changed address",
 		},
@@ -1892,7 +1926,7 @@ func Prop() *core.Prop {
 		},
 		Require: []string{"bind_receiver_feature_reused_groups", "bind_receiver_feature_reused_sessions", "bind_receiver_feature_reused_overlapping_sessions", "bind_receiver_fresh_resources",
 			"header_write_failed", "header_write_failed_at_restart", "header_write_failed_at_first_header", "headers_checked_after_failed_write", "sessions_after_failed_write_established",
-			"emit_direct", "emit_session_initiator", "emit_session_receiver", "emitted_headers_parsed", "lib2lib_established",
+			"emit_direct_special_id", "emitted_values_with_percent", "emit_direct", "emit_session_initiator", "emit_session_receiver", "emitted_headers_parsed", "lib2lib_established",
 			"accept_direct", "accept_session", "valid_headers_accepted", "invalid_headers_refused", "refused:version", "refused:no-id", "refused:name", "refused:content-ns",
 			"restart_resplit_address_cases", "bind_assigned_edge_resource", "restart_first_header_omits_address", "headers_omitting_address_accepted", "restart_own_headers_checked", "bind_initiator_header_omits_to", "bind_initiator_header_omits_from",
 			"restart_cases", "restart_unchanged_established", "restart_changed_address_cases", "restart_changed_address_refused",
